@@ -15,6 +15,7 @@ import (
 	"regexp"
 	"sort"
 	"strings"
+	"sync"
 	"testing"
 	"time"
 
@@ -650,6 +651,26 @@ func TestVerifC11(t *testing.T) {
 	if fresh == nil || logged == nil || other == nil || deleted == nil {
 		return
 	}
+	// the node's state is replaced in place (what a follower that receives a snapshot does)
+	// before any of the sessions ends: credentials are judged on the state in force afterwards
+	if seed%2 == 0 {
+		n.gate.Lock()
+		err := n.raft.Barrier(10 * time.Second).Error()
+		if err == nil {
+			err = n.raft.Snapshot().Error()
+		}
+		if snaps, lerr := n.fss.List(); err == nil && lerr == nil && len(snaps) > 0 {
+			if meta, rc, oerr := n.fss.Open(snaps[0].ID); oerr == nil {
+				err = n.raft.Restore(meta, rc, 20*time.Second)
+				rc.Close()
+				rep.Obs("restored-in-place-before-the-matrix", 1)
+			}
+		}
+		n.gate.Unlock()
+		if err != nil {
+			rep.Note("in-place restore: " + err.Error())
+		}
+	}
 	// a session ended by an IRC operator's KILL: its secret must be dead too
 	killed := mk("dave", true)
 	oper := mk("theop", true)
@@ -748,6 +769,56 @@ func TestVerifC11(t *testing.T) {
 						rep.Obs(fmt.Sprintf("public.refused.%d", code), 1)
 					}
 				}
+			}
+		}
+		// a request for a session that does not exist yet (its id is predictable: the next log
+		// index) stays refused when the session is created while the request is pending
+		{
+			last, _ := n.logStore.LastIndex()
+			type pend struct {
+				id         uint64
+				route      string
+				code       int
+				body, auth string
+			}
+			var mu sync.Mutex
+			var pending []*pend
+			var pwg sync.WaitGroup
+			for d := uint64(1); d <= 4; d++ {
+				for _, rt := range []struct{ method, suffix, body string }{
+					{"GET", "/messages?lastseen=0.0", ""},
+					{"POST", "/message", `{"Data":"NICK hijacker","ClientMessageId":9}`},
+				} {
+					pd := &pend{id: robust.IdFromRaftIndex(last + d), route: rt.method + " " + rt.suffix, auth: hex256()}
+					rt := rt
+					pwg.Add(1)
+					go func() {
+						defer pwg.Done()
+						ctx, cancel := context.WithTimeout(context.Background(), 3500*time.Millisecond)
+						defer cancel()
+						code, body := doCtx(ctx, c, rt.method, fmt.Sprintf("/robustirc/v1/0x%x%s", pd.id, rt.suffix), map[string]string{"X-Session-Auth": pd.auth}, rt.body)
+						mu.Lock()
+						pd.code, pd.body = code, body
+						pending = append(pending, pd)
+						mu.Unlock()
+					}()
+				}
+			}
+			time.Sleep(time.Duration(100+rng.Intn(300)) * time.Millisecond)
+			victim := mk(fmt.Sprintf("victim%d", r), true)
+			pwg.Wait()
+			if victim != nil {
+				for _, pd := range pending {
+					if pd.id != victim.N {
+						continue
+					}
+					if pd.code >= 200 && pd.code < 300 || strings.Contains(pd.body, "PRIVMSG") || strings.Contains(pd.body, "Welcome") {
+						viol("session-route-without-secret:created-while-pending:"+pd.route, fmt.Sprintf("%s for session %s with a made-up secret, sent before that session existed, answered %d %.80q once the session was created", pd.route, victim.Id, pd.code, pd.body))
+					}
+					rep.Case(fmt.Sprintf("public|created-while-pending|%s|%d", pd.route, pd.code))
+					rep.Obs("public.pending-requests-for-the-id-that-was-created", 1)
+				}
+				c.deleteSession(victim, []byte(`{"Quitmessage":"done"}`))
 			}
 		}
 		// the right secret opens exactly the session it was issued for: whatever else the body
